@@ -461,6 +461,17 @@ def normalize(e):
     if k == 'Call' and callee_is(e, 'RangeInclusive::new'):
         return {'k': 'Range', 'incl': True, 'ch': [e['ch'][1], e['ch'][2]], 'sp': e.get('sp'),
                 'id': e.get('id'), 'ty': e.get('ty')}
+    # `iter.for_each(|p| body)` is `for p in iter { body }` (a closure body without `return`)
+    if k == 'MethodCall' and e.get('method') == 'for_each' and len(e.get('ch', [])) == 2 and \
+            callee_is(e, 'Iterator::for_each'):
+        cl = peel(e['ch'][1])
+        if cl.get('k') == 'Closure' and len(cl.get('params', [])) == 1 and \
+                not any(x.get('k') == 'Ret' for x in walk(cl['ch'][0])):
+            return {'k': 'For', 'pat': cl['params'][0], 'ch': [e['ch'][0], cl['ch'][0]],
+                    'sp': e.get('sp'), 'id': e.get('id'), 'ty': '()', 'via': 'for_each'}
+    # `let mut i = a; .. while i < b { body; i += 1 }` is `for i in a..b { body }`
+    if k == 'Block' and e.get('stmts'):
+        e = _while_counters(e)
     # destructuring assignment
     if k == 'Block' and e.get('stmts') and 'expr' not in e:
         st = e['stmts']
@@ -487,6 +498,65 @@ def normalize(e):
             return {'k': 'MultiAssign', 'targets': targets, 'pat': s0['pat'], 'ch': [init],
                     'sp': e.get('sp'), 'id': e.get('id'), 'ty': '()', 'binds': len(binds)}
     return e
+
+
+def _while_counters(blk):
+    st = list(blk['stmts'])
+    changed = False
+    i = 0
+    while i < len(st):
+        s_ = st[i]
+        x = s_.get('e') if s_['k'] in ('Semi', 'Expr') else None
+        if x is not None and x.get('k') == 'While':
+            cond, body = peel(x['ch'][0]), x['ch'][1]
+            cnt = bound = None
+            if cond.get('k') == 'Binary' and cond['op'] == 'Lt':
+                cnt, bound = peel(cond['ch'][0]), cond['ch'][1]
+            elif cond.get('k') == 'Binary' and cond['op'] == 'Gt':
+                cnt, bound = peel(cond['ch'][1]), cond['ch'][0]
+            if cnt is not None and cnt.get('k') == 'Path' and cnt.get('res') == 'local' and \
+                    body.get('k') == 'Block' and body.get('stmts') and 'expr' not in body:
+                lid = cnt['local']
+                last = body['stmts'][-1]
+                le = peel(last.get('e', {})) if last['k'] in ('Semi', 'Expr') else {}
+                inc = le.get('k') == 'AssignOp' and le.get('op') == 'AddAssign' and \
+                    peel(le['ch'][0]).get('local') == lid and peel(le['ch'][1]).get('k') == 'Lit' and \
+                    peel(le['ch'][1]).get('v') == '1'
+                # the declaration: an earlier `let mut i = <literal or plain local>` in this block
+                decl = [j for j in range(i) if st[j]['k'] == 'Let' and st[j]['pat'].get('k') == 'Binding'
+                        and st[j]['pat'].get('local') == lid and 'init' in st[j] and
+                        peel(st[j]['init']).get('k') in ('Lit', 'Path')]
+                rest = body['stmts'][:-1]
+                assigned = {peel(y['ch'][0]).get('local') for z in rest for y in walk(z.get('e') or z.get('init') or {})
+                            if y.get('k') in ('Assign', 'AssignOp')}
+                bound_locals = {y['local'] for y in walk(bound) if y.get('k') == 'Path' and y.get('res') == 'local'}
+                has_cont = any(y.get('k') == 'Continue' for z in rest for y in walk(z.get('e') or z.get('init') or {}))
+                used_after = any(y.get('k') == 'Path' and y.get('local') == lid
+                                 for z in st[i + 1:] for y in walk(z.get('e') or z.get('init') or {})) or \
+                    ('expr' in blk and any(y.get('k') == 'Path' and y.get('local') == lid for y in walk(blk['expr'])))
+                between = any(y.get('k') == 'Path' and y.get('local') == lid
+                              for z in st[decl[-1] + 1:i] for y in walk(z.get('e') or z.get('init') or {})) if decl else True
+                if inc and decl and lid not in assigned and not (bound_locals & assigned) and \
+                        not has_cont and not used_after and not between:
+                    d = decl[-1]
+                    pat = dict(st[d]['pat'])
+                    pat['mut'] = False
+                    rng = {'k': 'Range', 'incl': False, 'ch': [st[d]['init'], bound], 'sp': x.get('sp'),
+                           'id': None, 'ty': 'std::ops::Range<usize>'}
+                    nb = dict(body)
+                    nb['stmts'] = rest
+                    loop = {'k': 'For', 'pat': pat, 'ch': [rng, nb], 'sp': x.get('sp'), 'id': x.get('id'),
+                            'ty': '()', 'via': 'while'}
+                    st[i] = dict(s_, e=loop)
+                    del st[d]
+                    i -= 1
+                    changed = True
+        i += 1
+    if not changed:
+        return blk
+    out = dict(blk)
+    out['stmts'] = st
+    return out
 
 
 def _pat_binds(p):
